@@ -281,23 +281,25 @@ func (fc *FuncCtx) runGhostSets(in ssa.Instruction, st *State, reach string) *St
 
 // funcValKey names a function value by where it comes from: a parameter name, a
 // struct field, or its named type.
-func (fc *FuncCtx) funcValKey(v ssa.Value) string {
+func (fc *FuncCtx) funcValKey(v ssa.Value) string { return funcValKeyOf(fc.fn, v) }
+
+func funcValKeyOf(fn *ssa.Function, v ssa.Value) string {
 	if n, ok := v.Type().(*types.Named); ok {
 		return n.String()
 	}
 	switch x := v.(type) {
 	case *ssa.Parameter:
-		return fc.fn.String() + "#" + x.Name()
+		return fn.String() + "#" + x.Name()
 	case *ssa.UnOp:
 		if fa, ok := x.X.(*ssa.FieldAddr); ok {
 			st := mustDeref(fa.X.Type()).Underlying().(*types.Struct)
 			return mustDeref(fa.X.Type()).String() + "." + st.Field(fa.Field).Name()
 		}
 		if fv, ok := x.X.(*ssa.FreeVar); ok {
-			return fc.fn.String() + "#" + fv.Name()
+			return fn.String() + "#" + fv.Name()
 		}
 	case *ssa.FreeVar:
-		return fc.fn.String() + "#" + x.Name()
+		return fn.String() + "#" + x.Name()
 	}
 	return v.Type().String()
 }
@@ -1032,25 +1034,15 @@ func (e *Engine) callMods(caller *ssa.Function, c *ssa.CallCommon, out map[strin
 	} else if callee = c.StaticCallee(); callee != nil {
 		con = e.byKey[callee.String()]
 	} else {
-		// dynamic
+		// dynamic call through a function value
+		if cc := e.byKey["funcval:"+funcValKeyOf(caller, c.Value)]; cc != nil {
+			if !cc.Pure {
+				out["$wm"] = true
+				e.contractMods(cc, nil, c.Signature(), out)
+			}
+			return
+		}
 		out["*"] = true
-		// a funcval contract may exist; resolved at call time, here conservative unless pure
-		for k, cc := range e.byKey {
-			if strings.HasPrefix(k, "funcval:") && cc.Pure {
-				if n, ok := c.Value.Type().(*types.Named); ok && k == "funcval:"+n.String() {
-					delete(out, "*")
-				}
-			}
-		}
-		if out["*"] {
-			// look for a parameter/field keyed contract
-			for k, cc := range e.byKey {
-				if strings.HasPrefix(k, "funcval:") && strings.Contains(k, caller.String()+"#") {
-					e.contractMods(cc, nil, c.Signature(), out)
-					delete(out, "*")
-				}
-			}
-		}
 		return
 	}
 	if con != nil && !con.Inline {
